@@ -761,11 +761,11 @@ def area_regex(ctx, b):
     try:
         cases = []
         for pat, subs in D.FIXED:
-            allsubs = list(subs) + [D.mutate(s0) for s0 in subs for _ in range(2 if ctx.quick else 12)]
+            allsubs = list(subs) + [D.mutate(s0) for s0 in subs for _ in range(2 if ctx.quick else max(2, 24 // max(1, ctx.nshards)))]
             for s in allsubs:
                 for ic in (0, 1):
                     cases.append((ic, pat, s, _random.choice(D.REPLS)))
-        n_random = 600 if ctx.quick else 5000
+        n_random = 600 if ctx.quick else max(400, 6400 // max(1, ctx.nshards))      # per shard: the shards draw different patterns
         n0 = len(cases)
         while len(cases) - n0 < n_random:
             pat = D.gen_alt(_random.choice([0, 1, 2, 2, 3])) if _random.random() < 0.7 else D.tiny_alt(_random.choice([1, 2, 2, 3]))
